@@ -794,3 +794,29 @@ func RoundPasses(w *world.World) []PassSpec {
 	}
 	return out
 }
+
+// StaleOwnEvents: for every ObjectSet whose stored content has a predecessor, a pass of its
+// controller whose (cached) read of the ObjectSet itself still returns that predecessor - the
+// informer has not delivered the latest write (typically the controller's own status update)
+// yet. Budget "stale-own".
+func StaleOwnEvents(w *world.World) []world.Event {
+	if w.Budget["stale-own"] <= 0 {
+		return nil
+	}
+	var evs []world.Event
+	for _, k := range w.S.SortedKeys() {
+		if k.Group != "package-operator.run" || k.Kind != "ObjectSet" {
+			continue
+		}
+		o := w.S.Objs[k]
+		if o.Prev == nil || kmodel.Digest(o.Prev) == kmodel.Digest(o.Content) {
+			continue
+		}
+		k := k
+		evs = append(evs, world.Event{Name: "reconcile-stale-own:os:" + k.Name + " (cache one write behind)", Apply: func(w *world.World) *world.Pass {
+			w.Budget["stale-own"]--
+			return w.Reconcile(world.CtrlObjectSet, NN(k.Name), &world.Plan{StaleGet: []kmodel.Key{k}})
+		}})
+	}
+	return evs
+}
